@@ -27,12 +27,15 @@ vars == <<atoms, phase, init, cond, wins, prevNT, prevSize>>
 
 CaseFile == IOEnv.CASE_FILE
 
-\* 1, 2: successive disjoint windows; 3 overlaps both; 4 later; 5 odd nanosecond ends inside 2
+\* 1, 2: successive disjoint windows; 3 overlaps both; 4 later; 5 odd nanosecond ends inside 2; 6, 7 select nothing
 Win(i) == CASE i = 1 -> [s |-> I(1, 0), e |-> I(2, 0)]
             [] i = 2 -> [s |-> I(2, 0), e |-> I(3, 0)]
             [] i = 3 -> [s |-> I(1, 0), e |-> I(3, 0)]
             [] i = 4 -> [s |-> I(3, 0), e |-> I(4, 0)]
             [] i = 5 -> [s |-> I(2, 1), e |-> I(3, -1)]
+            \* 6 empty, 7 reversed: nothing is selected - and the next window applies like any other
+            [] i = 6 -> [s |-> I(2, 0), e |-> I(2, 0)]
+            [] i = 7 -> [s |-> I(3, 0), e |-> I(2, 0)]
 
 NoTree == [n |-> "none"]
 \* bare top-level OR conditions (no parentheses around the OR): `a OR b`, `a OR b OR c`, `a OR b AND c`,
